@@ -112,7 +112,8 @@ def check(rec, st):
             if t["impl"] == "v2":
                 if not ok:
                     st.violation("tampered-stream-delivered-different-message", "tampered v2 stream delivered a message that was not sent", {"pos": pos, "bit": bit}, case)
-                elif delivered >= t["total"] and not err:
+                elif delivered >= t["total"] and not err and not (t.get("app_end") and pos >= t["app_end"]):
+                    # (a flip inside the trailing decoy packets cannot affect the application messages before it)
                     st.violation("tampered-stream-fully-delivered", "tampered v2 stream was delivered completely and no error was reported", {"pos": pos, "bit": bit}, case)
                 st.seen("tamper_trials_checked")
             else:
